@@ -992,8 +992,13 @@ func (c *Client) dialAndConnect(config *Config) (net.Conn, *bufio.Reader, error)
 	bufr, err := c.handshake(conn, config, clientID)
 	// ⚠️ delayed error check
 
-	done <- struct{}{}
-	e := <-abort
+	var e error
+	select {
+	case done <- struct{}{}:
+		e = <-abort
+	case e = <-abort:
+		break // interrupted
+	}
 	if e != nil {
 		// abort closed connection
 		return nil, nil, e
